@@ -653,8 +653,32 @@ SKIP_STANDARD_RESUMPTION:
                     ssl->err = SSL_ALERT_HANDSHAKE_FAILURE;
                     return MATRIXSSL_ERROR;
                 }
-                /* A ecCurveId of zero (with no extension) will return a
-                    default which is fine according to spec */
+                /* A ecCurveId of zero (with no extension) means the client
+                    accepts any curve: take the first compiled-in curve
+                    that this session has enabled (ecFlags), not blindly
+                    the library default. */
+                if (ssl->ecInfo.ecCurveId == 0)
+                {
+                    unsigned char ids[32];
+                    uint8_t idsLen = sizeof(ids), k;
+
+                    psGetEccCurveIdList(ids, &idsLen);
+                    for (k = 0; k + 1 < idsLen; k += 2)
+                    {
+                        if (psTestUserEcID((ids[k] << 8) | ids[k + 1],
+                                ssl->ecInfo.ecFlags) == PS_SUCCESS)
+                        {
+                            ssl->ecInfo.ecCurveId = (ids[k] << 8) | ids[k + 1];
+                            break;
+                        }
+                    }
+                    if (ssl->ecInfo.ecCurveId == 0)
+                    {
+                        psTraceErrr("No EC curve enabled for this session\n");
+                        ssl->err = SSL_ALERT_HANDSHAKE_FAILURE;
+                        return MATRIXSSL_ERROR;
+                    }
+                }
                 if (getEccParamById(ssl->ecInfo.ecCurveId, &curve) < 0)
                 {
                     return MATRIXSSL_ERROR;
